@@ -13,6 +13,8 @@ CONSTANTS
   Steps <- MCSteps
   Algo = "squarefast"
   Garbage = 1000
+  Acts = {"remove", "setitem", "clear", "reload"}
+  GivenSets <- NoGiven
   Record = FALSE
   Temps = {200, 1000}
 INVARIANT NormalEquations
